@@ -12,6 +12,7 @@ import (
 	"google.golang.org/grpc"
 
 	"github.com/buchgr/bazel-remote/v2/cache"
+	"github.com/buchgr/bazel-remote/v2/zzverif/vmodel"
 	"github.com/buchgr/bazel-remote/v2/zzverif/vsym"
 )
 
@@ -136,6 +137,83 @@ func vWriteIdentity(maxMsgs int) {
 		}
 	}
 }
+
+// vWriteZstd: an upload to uploads/<uuid>/compressed-blobs/zstd/<hash>/5.
+// The compressed stream ("client", total length = bytes sent) decodes to a
+// logical stream of symbolic length, or is corrupt.
+func vWriteZstd(maxMsgs int) {
+	c := &vCache{maxBlobSize: vsym.Int64("maxBlobSize"), good: map[string]bool{}, exists: map[string]bool{}, existsSize: map[string]int64{}}
+	vsym.Assume(c.maxBlobSize > 0)
+	pre := vsym.Choose("preexisting", 2) == 1
+	if pre {
+		c.exists[vHashA] = true
+		c.existsSize[vHashA] = vDeclSize
+	}
+	c.good["client-decoded"] = vsym.Bool("decoded-bytes-are-the-blob")
+	s := vNewServer(c)
+	name := "uploads/uuid-1/compressed-blobs/zstd/" + vHashA + "/5"
+	n := 1 + vsym.Choose("messages", maxMsgs)
+	st := &vWriteStream{endErr: io.EOF}
+	total := int64(0)
+	firstOffset := int64(0)
+	for i := 0; i < n; i++ {
+		l := vsym.Int64("len")
+		vsym.Assume(l >= 0)
+		vsym.Assume(l <= 8)
+		data := vsym.MakeBytes(int(l))
+		vsym.Fill(data, int(l), "client", total)
+		m := &bytestream.WriteRequest{Data: data}
+		if i == 0 {
+			m.ResourceName = name
+			m.WriteOffset = vsym.Int64("writeOffset")
+			firstOffset = m.WriteOffset
+		}
+		if i == n-1 && vsym.Choose("finishWrite", 2) == 1 {
+			m.FinishWrite = true
+		}
+		total += l
+		st.msgs = append(st.msgs, m)
+	}
+	vmodel.ZstdUpload.CompressedSrc = "client"
+	vmodel.ZstdUpload.CompressedLen = total
+	vmodel.ZstdUpload.DecodedSrc = "client-decoded"
+	vmodel.ZstdUpload.DecodedLen = vsym.Int64("decodedLen")
+	vsym.Assume(vmodel.ZstdUpload.DecodedLen >= 0)
+	vsym.Assume(vmodel.ZstdUpload.DecodedLen <= 16)
+	vmodel.ZstdUpload.Corrupt = vsym.Bool("corrupt")
+
+	err := s.Write(st)
+
+	live := vsym.Quiesce()
+	vsym.Assert(live == 0, "bytestream/C14-no-goroutine-left-after-Write")
+	stored := c.stored(cache.CAS, vHashA)
+	goodBlob := vsym.And(vsym.And(vsym.Not(vmodel.ZstdUpload.Corrupt), vmodel.ZstdUpload.DecodedLen == vDeclSize), c.good["client-decoded"])
+	if err == nil {
+		vsym.Reach("zstd-write-ok")
+		vsym.Assert(st.resp != nil, "bytestream/C16-success-sends-a-response")
+		if st.resp == nil {
+			return
+		}
+		if stored {
+			vsym.Reach("zstd-write-ok-stored")
+			vsym.Assert(st.resp.CommittedSize == total, "bytestream/C16-committed-size-is-the-number-of-bytes-sent")
+			vsym.Assert(goodBlob, "bytestream/C01-acknowledged-only-if-decoded-bytes-are-the-blob")
+			vsym.Assert(firstOffset == 0, "bytestream/C16-non-zero-first-write-offset-accepted")
+			vsym.Assert(vDeclSize <= c.maxBlobSize, "bytestream/C18-oversize-upload-accepted")
+		} else {
+			vsym.Reach("zstd-write-ok-preexisting")
+			vsym.Assert(pre, "bytestream/C01-acknowledged-although-not-stored-and-not-present")
+			vsym.Assert(st.resp.CommittedSize == -1, "bytestream/C16-early-return-for-compressed-upload-reports-minus-one")
+		}
+	} else {
+		vsym.Reach("zstd-write-error")
+	}
+	if !pre && stored {
+		vsym.Assert(vsym.And(goodBlob, firstOffset == 0), "bytestream/C01-malformed-upload-made-the-digest-present")
+	}
+}
+
+func VerifBytestreamWriteZstd2() { vWriteZstd(2) }
 
 func VerifBytestreamWrite2() { vWriteIdentity(2) }
 func VerifBytestreamWrite3() { vWriteIdentity(3) }
